@@ -86,7 +86,12 @@ def _direct(ev, prop, pg=4096):
         for k in range((r["len"] + pg - 1) // pg):
             if pages[1 + k] != want:
                 out.append("type state vs kernel: data page %d is not what the type says after %s" % (k + 1, ev.get("op", ["?"])[0]))
-        if pages[0] & 3 != 2 or pages[-1] & 3 != 2:
+        # the page just before the data, and a page no more than one page beyond the end of the allocation, are inaccessible
+        # (judged on the kernel's view alone: how many pages the block spans is the implementation's business)
+        cap = obs["allocs"][r["a"] - 1]["cap"]
+        nd = max(1, (cap + pg - 1) // pg)
+        after = [pages[i] for i in (1 + nd, 2 + nd) if i < len(pages)]
+        if pages[0] & 3 != 2 or not any(c & 3 == 2 for c in after):
             out.append("type state vs kernel: guard page missing after %s" % ev.get("op", ["?"])[0])
     return out
 
